@@ -41,11 +41,13 @@ GRAMMARS = [
      ['1+2*3', '(1+2)*3', '-1', '1+', '((1))', '2*(3-4)', '1 2']),
     ('imports', 'start: item+\nitem: m__dummy? pair\n%import mod.pair\n%import mod.dummy -> m__dummy\n%ignore " "\n',
      ['a:1', 'a:1 b:2', 'a:', 'x a:1', ':1', 'a:b']),
+    # terminal priorities: the option priority=None (an explicit None that is NOT the default) switches them off
+    ('prio', 'start: (KW | NAME)+\nKW.2: "if"\nNAME: /[a-z]+/\n%ignore " "\n', ['iffy', 'if x', 'x if', 'ifif', 'a b', '1']),
 ]
 MODULES = ['pair: WORD ":" NUM\ndummy: "x"\nWORD: /[a-z]+/\nNUM: /[0-9]+/\n',
            'pair: WORD ":" (NUM | WORD)\ndummy: "x"\nWORD: /[a-z]+/\nNUM: /[0-9]+/\n',
            'pair: NUM ":" WORD\ndummy: "x" "x"\nWORD: /[a-z]+/\nNUM: /[0-9]+/\n']
-OPTIONS = [{}, {'keep_all_tokens': True}, {'maybe_placeholders': False}, {'lexer': 'basic'}, {'propagate_positions': True}]
+OPTIONS = [{}, {'keep_all_tokens': True}, {'maybe_placeholders': False}, {'lexer': 'basic'}, {'propagate_positions': True}, {'priority': None}]
 ALL_PROBES = sorted({w for _n, _g, ws in GRAMMARS for w in ws})
 
 
